@@ -11,7 +11,7 @@ pub fn run(args: &Args, r: &mut Report) {
     r.rule_text = "start()-mode histories (1..4 checks over all paths, reboot waits with pings) in which EVERY environment future is a gate \
         (timers, HTTP exchanges, policy answers, plan creation, install steps, reboot) and the seeded scheduler interleaves up to 6 \
         start_update_check requests from up to 3 handle clones (either source) with gate releases at every blocking-point class; \
-        variants: requests while nothing else is enabled (strict-wake: the stream is polled only when its waker fired), two sources \
+        variants: a request abandoned by its caller (future dropped after the first poll) followed by another one through the same handle object, requests while nothing else is enabled (strict-wake: the stream is polled only when its waker fired), two sources \
         ready before one poll, all handles dropped mid-run, machine dropped before / after requests, invalid app set.  After the \
         injection phase all gates are drained.  Oracle: reply / attribution checker over the log (replies carry [lo, hi] sequence \
         intervals; Started / Throttled need an injective assignment to update_check_allowed calls with matching options and answer; \
@@ -202,6 +202,14 @@ pub fn run(args: &Args, r: &mut Report) {
                     }
                 }
                 _ => {}
+            }
+            if budget > 1 && !dropped_all && variant < 5 && rng.chance(1, 25) {
+                // a caller gives up on a request and asks again through the same handle
+                budget -= 2;
+                let (o1, o2) = (rng.bool(), rng.bool());
+                d.abandon_and_resend(rng.usize(nh), o1, o2);
+                inj.push_str("abandon,");
+                continue;
             }
             if budget > 0 && !dropped_all && rng.chance(1, 5) {
                 budget -= 1;
